@@ -2,8 +2,8 @@ SPECIFICATION Spec
 CONSTANTS
   NTop = 2
   KindsCb = {"noop", "raise", "failfut", "addcb", "addto", "rm", "resolve"}
-  KindsTo = {"noop", "raise", "addcb", "addto", "rm"}
-  KindsFut = {"noop", "addcb"}
+  KindsTo = {"noop", "addto", "rm"}
+  KindsFut = {"noop"}
   Delays = {0, 1}
   ChildDelays = {0, 1}
   Forms = {"x"}
